@@ -124,7 +124,11 @@ def run(ctx):
     from vlib.overlay import overlay_cases
     cases = cases + overlay_cases("items", "c07")
     ct = contradictory_cases() + null_and_deep_cases()
-    run_cases(ctx, cases + ct, "c07")
+    from vlib.overlay import sibling_group_cases
+    from vlib.valuecheck import expect_cases
+    sg = sibling_group_cases("items", "c07")
+    run_cases(ctx, cases + ct + sg, "c07")
+    expect_cases(ctx, sg, "array limits")
     nct = 0
     for c in ct:
         if not c.build_ok:
